@@ -52,7 +52,12 @@ def rule_nogrow(ctx):
     B.check_aux(ctx, "C11.AUX")
 
 
+def rule_regex(ctx):
+    B.check_regex(ctx, "C11.REGEX", ("indi.message", "indi.transport"), "processing the receive buffer no longer terminates in any useful sense")
+
+
 RULES = [
+    ("C11.REGEX", rule_regex, "no regex on the parse path has an unbounded repeat with an ambiguous iteration (exponential backtracking)"),
     ("C11.PROGRESS", rule_progress, "every loop-back of both framing loops strictly advances (buffer shrinks >= 1 / scan position increases)"),
     ("C11.GUARD", rule_guard, "the consumer only receives results of IndiMessage.from_string"),
     ("C11.CONTAIN", rule_contain, "parser exceptions never escape Buffer.process"),
